@@ -300,4 +300,33 @@ example : (knnOne sortE 3 4 (fun c : Rat => some (ratAbs c)) [2, -1]).map (fun e
 
 example : effBs (some 7) 5 = 5 ∧ card 5 2 = 3 ∧ flatOf 2 (some (2, 0)) = some 4 := by decide +kernel
 
+/-! ### translation invariance of the search keys -/
+
+private theorem diffAbs_translation (a b : List Rat) (c : Rat) :
+    diffAbs (a.map (· + c)) (b.map (· + c)) = diffAbs a b := by
+  unfold diffAbs
+  induction a generalizing b with
+  | nil => simp
+  | cons u a ih =>
+    cases b with
+    | nil => simp
+    | cons v b =>
+      simp only [List.map_cons, List.zipWith_cons_cons]
+      rw [ih b]
+      congr 2
+      ring
+
+/-- every predefined distance except the cosine one is translation invariant: a common offset of the (projected) query and case
+    changes no search key, hence neither the k nearest cases nor their order (the common-offset family of the correspondence
+    check; a crossed-distance routine that expands `‖x‖² − 2⟨x,z⟩ + ‖z‖²` in float32 does not have this property) -/
+theorem knn_key_translation (dk : DistKind) (a b : List Rat) (c : Rat) (hcos : dk ≠ .cos) :
+    distKey dk (a.map (· + c)) (b.map (· + c)) = distKey dk a b := by
+  cases dk with
+  | cos => exact absurd rfl hcos
+  | l1 => simp only [distKey, diffAbs_translation]
+  | linf => simp only [distKey, diffAbs_translation]
+  | lp p => simp only [distKey, diffAbs_translation]
+  | wl1 w => simp only [distKey, diffAbs_translation]
+
+
 end Xp.TopK
